@@ -671,6 +671,26 @@ def run(ctx):
         chk.ok(R3, ll.qualname, f'{nfilters} skip filter(s), {len(lds)} listdir site(s)', detail='loose listing enumerates loose/ and skips only names that are not valid prefixes / keys')
     else:
         chk.bad(R3, ll.qualname, 'filters', '_list_loose skips entries for a reason other than the name-validity predicates, or lists another directory', where=f'{ll.module.relpath}:{ll.lineno}')
+    # the name-validity predicates themselves: they depend on the configuration only through self.loose_prefix_len, never on a literal key length, and
+    # accept every lowercase hex digit (a key of any supported hash algorithm must be listed)
+    for pname in ('_is_valid_hashkey', '_is_valid_loose_prefix'):
+        pf = cont.methods.get(pname)
+        chk.require(pf is not None, f'Container.{pname} not found')
+        badp = None
+        for n in walk_local(pf.node):
+            if isinstance(n, ast.Compare) and len(n.ops) == 1:
+                sides = [n.left, n.comparators[0]]
+                lens = [x for x in sides if isinstance(x, ast.Call) and norm(x.func) == 'len']
+                consts = [x for x in sides if isinstance(x, ast.Constant) and isinstance(x.value, int) and not isinstance(x.value, bool)]
+                if lens and consts:
+                    badp = (n, f'the length of the name is compared with the literal {consts[0].value}: keys of another supported hash algorithm (or prefix length) would be treated as foreign files and silently left out of every listing')
+                if isinstance(n.ops[0], (ast.In, ast.NotIn)) and isinstance(n.comparators[0], ast.Constant) and isinstance(n.comparators[0].value, str):
+                    if not set('0123456789abcdef') <= set(n.comparators[0].value):
+                        badp = (n, f'the accepted alphabet {n.comparators[0].value!r} lacks hexadecimal digits: valid keys would be left out of every listing')
+        if badp:
+            chk.bad(R3, pf.qualname, norm(badp[0]), badp[1], where=f'{pf.module.relpath}:{badp[0].lineno}')
+        else:
+            chk.ok(R3, pf.qualname, 'name validity', detail='hex alphabet complete; length only compared with the configured prefix length', nontrivial=False)
     # count_objects
     co = cont.methods.get('count_objects')
     chk.require(co is not None, 'Container.count_objects not found')
